@@ -220,6 +220,10 @@ partial def loop (h : IO.FS.Stream) (out : IO.FS.Stream) (f : Full) : IO Unit :=
           out.flush
         | none => pure ()
         loop h out { st := st', ws := ws', clock := clock' }
+      else if op == "ping" then
+        out.putStrLn (Json.compress (Json.mkObj [("pong", .num ⟨(jNat j "id" : Int), 0⟩)]))
+        out.flush
+        loop h out f
       else if op == "passthrough" then
         out.putStrLn (Json.compress (passthroughOp f.st j))
         out.flush
